@@ -78,6 +78,9 @@ func checkC01(c *Ctx) {
 	c.Rule("C01-R28", "after the terminal reports a new size: the channel the window-change signal is delivered on has room for one (os/signal drops a signal when the channel is not ready, and the receiver is not while it runs the resize callback: the report of the final size is then never acted upon)")
 	c.Expect("C01-R28", 2)
 	checkSignalChansBuffered(c, p, "C01-R28")
+	c.Rule("C01-R29", "colours as last set, foreground and background: in sendFgBg every way to a return passes an emission that carries the background (SetBg, SetFgBg or an RGB form), or a test that found the background invalid or the capability empty, or the monochrome branch (an else-if chain selects the foreground and forgets the background on terminals without a combined capability)")
+	c.Expect("C01-R29", 1)
+	checkBackgroundSelectedOnEveryPath(c, p, "C01-R29")
 	get := func(name string) *ssa.Function {
 		fn := p.Fn("tcell:(*tScreen)." + name)
 		if fn == nil {
